@@ -9,32 +9,38 @@ import math
 import numpy as np
 
 CLAIMED = True
-TECHNIQUE = ("Lean 4 proofs by induction on the tree (widths, allocation, read-safety, controlled-swap routing, amplitude closed "
-             "form of the bottom-up circuit in amplitude-function semantics, angle algebra over R); executable model tied to the "
-             "real code by diffing allocation tables, widths and flattened gate lists; exact marginals from state vectors as oracle")
-LEVEL_TEXT = ("Proved for the model, all n>=1 and all 1<=s<=n: allocated width = (s+1)*2^(n-s)-1 = declared width, DCSP 2^n-1, default "
-              "split ceil(n/2) (C11_width); allocation injective, output wires n-1..0 down the left spine, every .qubit read hits an "
-              "allocated node, top-down controls are the chain ancestors (C11_alloc); s=n allocates no ancilla and emits only the "
-              "top-down multiplexers (C11_s_eq_n); C11_marginal_partial: (a) over R the half-angle cos^2/sin^2 of create_angles_tree "
-              "multiply along every root-to-leaf path to |a_k|^2/|a|^2 incl. zero sub-trees, (b) the cswap network of a node moves "
-              "the right child's spine onto the left child's spine exactly when the node's qubit is 1 and the angle is non-zero, for "
-              "all tree shapes, (c) closed form of the bottom-up circuit's output amplitudes on every input state supported on "
-              "clean tree wires. Not proved: the summation of |amplitude|^2 over ancilla assignments (marginalisation) and the "
-              "composition with the top-down sub-tree blocks (uses C13/C01). Tie: allocation tables, widths and full flattened gate "
-              "lists of the real BdspInitialize/DcspInitialize vs the model for every (n<=5 quick / <=6 thorough, every s and the "
-              "default) over nine vector families; oracle: exact output marginals vs |a_k|^2, three-way width equality, s=n state "
-              "vs vector up to phase.")
+TECHNIQUE = ("Lean 4 proofs by induction on the tree, all n and all splits: widths, allocation and read-safety of add_register, "
+             "placement of the top-down multiplexers, controlled-swap routing, closed form of top_down;bottom_up in "
+             "amplitude-function semantics (C13's multiplexer proof re-done on arbitrary wires), summation of squared moduli "
+             "over ancilla assignments, half-angle algebra over R; executable model tied to the real code by diffing allocation "
+             "tables, widths and flattened gate lists; exact marginals from state vectors as oracle")
+LEVEL_TEXT = ("FULL proof for the model, all n>=1 and all 1<=s<=n: allocated width = circuit width = declared width = "
+              "(s+1)*2^(n-s)-1, DCSP 2^n-1, default split ceil(n/2) (C11_width); allocation injective, wires n-1..0 down the left "
+              "spine then the ancilla register reversed, every .qubit read hits an allocated node, top-down multiplexers sit on "
+              "the chain ancestors' wires with 2^d angles (C11_alloc); s=n allocates no ancilla and emits only the top-down "
+              "cascade (C11_s_eq_n) and the prepared amplitude is e^{-i rootArg} a_k, i.e. the vector up to one global phase "
+              "(C11_s_eq_n_state). C11_marginal (BdspInitialize, every split) and C11_marginal_dcsp (DcspInitialize): for every "
+              "unit vector incl. zeros / zero sub-trees / phases and every input state whose circuit wires are |0> (spectators "
+              "arbitrary), summing |amplitude|^2 of the model's gate list over all ancilla assignments gives |a_k|^2 for the k "
+              "read on the output wires - exact real/complex arithmetic, `angle != 0.0` and the 1e-8 leaf test modelled as "
+              "`angle = 0`. C11_topdown_block: the top-down cascade on a complete block prepares the path-product amplitude "
+              "(reusable for C01). Tie: allocation tables, widths and full flattened gate lists of the real "
+              "BdspInitialize/DcspInitialize vs the model for every (n<=5 quick / <=6 thorough, every s and the default) over nine "
+              "vector families; oracle: exact output marginals vs |a_k|^2 (every s), three-way width equality, s=n state vs vector "
+              "up to phase.")
 LEVEL_NOTE = ("Trusted: Lean kernel (standard axioms); hand model <-> code beyond the explored sizes (recursions uniform in n); the "
               "builtins abs/cmath.phase (leaf values are read from the real state tree and cross-checked in the driver); libm "
               "sqrt/pow/asin; qiskit ry/rz/cx/cswap matrices (validated each run); IEEE floats vs exact reals (the tests "
-              "`angle != 0.0` are modelled as exact comparisons; inputs are exact zeros or >= 1e-3 in magnitude).")
+              "`angle != 0.0` and ucr's `abs(angle) > 1e-8` are exact zero tests in the theorems; generated amplitudes are exact "
+              "zeros or well away from 0).")
 LEAN_TARGETS = ["QclibModel.Props.C11"]
-THEOREMS = ["Qclib.C11_width", "Qclib.C11_alloc", "Qclib.C11_s_eq_n", "Qclib.C11_marginal_partial"]
+THEOREMS = ["Qclib.C11_width", "Qclib.C11_alloc", "Qclib.C11_s_eq_n", "Qclib.C11_s_eq_n_state", "Qclib.C11_marginal",
+            "Qclib.C11_marginal_dcsp", "Qclib.C11_topdown_block", "Qclib.C11_marginal_ingredients"]
 TRUSTED = [
     "abs(complex) and cmath.phase: leaf (mag,arg) are taken from the real state tree and re-checked against sqrt(re^2+im^2), atan2 to 1e-12",
     "qiskit ry/rz/cx/cswap matrices equal matRY/matRZ/X/controlled swapBits of Sem/Denote.lean (validated numerically each run)",
     "float: `x != 0.0`, `mag > 1.0` are exact comparisons in the theorem; generated amplitudes are exact zeros or >= 1e-3",
-    "C13_ucr for the multiplexers of the top-down part (own check)",
+    "declared-width functions _get_num_qubits are hand-modelled (bdspDeclared/dcspDeclared/bdspDefaultSplit) and tied by value, not translated from source",
 ]
 ASSUMPTIONS = ["exact real arithmetic in the theorems; implementation compared to 1e-7 (tie) / 1e-7 (oracle)",
                "all tree wires start in |0>"]
